@@ -25,7 +25,7 @@ SPELL = {
 }
 DUCK = {"BIGINT": [0], "INTEGER": [1], "DOUBLE": [3], "VARCHAR": [4], "BOOLEAN": [5], "DATE": [6], "TIME": [7], "TIMESTAMP": [8], "TIMESTAMP_NS": [9],
         "TIMESTAMP WITH TIME ZONE": [10], "BLOB": [11], "JSON": [12]}
-PATHS = ["literal", "param", "insel", "ctas", "clone", "pandas"]
+PATHS = ["literal", "param", "qmark", "insel", "ctas", "clone", "pandas", "pandas_multi"]
 
 
 def duck_enc(s):
@@ -196,6 +196,15 @@ def main():
     n_rand = 12 if thorough else 3
     fs, conn = fsutil.fresh()
     cur = conn.cursor()
+    import snowflake.connector
+
+    old_style = snowflake.connector.paramstyle
+    snowflake.connector.paramstyle = "qmark"
+    try:
+        connq = fs.connect(database="DB1", schema="S1")          # the paramstyle is captured at connect (conn.py:51)
+    finally:
+        snowflake.connector.paramstyle = old_style
+    curq = connq.cursor()
     duck = fs.duck_conn.cursor()
     cur.execute("create table bystander (id int, c varchar)")
     cur.execute("insert into bystander values (1, 'keep'), (2, null)")
@@ -250,12 +259,25 @@ def main():
             except Exception as e:  # noqa: BLE001
                 report("ddl", f"create table with column type `{name}` raised {type(e).__name__}: {str(e)[:100]}", {"type": name})
                 continue
+            multi = []
             for j, v in enumerate([None] + vals + [None] + extra):
                 ident = j + 1
                 ck.cov["evaluations"] += 1
                 ck.count(f"path:{path}")
                 try:
-                    if path == "literal":
+                    if path == "pandas_multi":
+                        # one DataFrame holding every value the single-row path is expected to store (NULL first and last)
+                        skip = j > len(vals) + 1 or (t[0] in (1, 2) and isinstance(v, int) and abs(v) >= 2**53) or (t[0] == 10 and v is not None and v[0] not in "{[")
+                        if skip:
+                            stored_by.setdefault(path, {})[j] = ("skip", [])
+                            continue
+                        multi.append((ident, json.loads(v) if (t[0] == 10 and v is not None) else v))
+                    elif path == "qmark":
+                        if t[0] == 10:
+                            curq.execute(f"insert into {tbl} select ?, parse_json(?)", (ident, v))
+                        else:
+                            curq.execute(f"insert into {tbl} (id, c) values (?, ?)", (ident, v))
+                    elif path == "literal":
                         cur.execute(f"insert into {tbl} values ({ident}, {lit(t, v)})")
                     elif path == "param":
                         if t[0] == 10:
@@ -279,6 +301,11 @@ def main():
                 except Exception as e:  # noqa: BLE001
                     stored_by.setdefault(path, {})[j] = f"{type(e).__name__}: {str(e)[:80]}"
             try:
+                if path == "pandas_multi" and multi:
+                    df = pd.DataFrame({"ID": [i_ for i_, _ in multi], "C": pd.Series([c_ for _, c_ in multi], dtype=object if t[0] in (1, 2, 10, 9, 0, 4) else None)})
+                    ok, _, cnt, _ = pt.write_pandas(conn, df, tbl.upper())
+                    if not ok or cnt != len(multi):
+                        report("wp", f"write_pandas reported {ok, cnt} for {len(multi)} rows", {"type": name})
                 if path == "insel":
                     cur.execute(f"insert into {tbl} select id, c from {src}")
                 elif path == "ctas":
@@ -303,6 +330,8 @@ def main():
                 if j in stored_by[path] and isinstance(stored_by[path][j], str):
                     continue
                 got = backd.get(ident, [])
+                if path == "pandas_multi" and isinstance(stored_by[path].get(j), tuple):
+                    continue
                 # a bound -0.0 is the text `-0.0`, a fixed-point zero in Snowflake too: its sign is not part of the written value
                 zero = path == "param" and isinstance(v, float) and v == 0.0 and len(got) == 1 and isinstance(got[0], float) and got[0] == 0.0
                 stored_by[path][j] = ("ok", got[0]) if len(got) == 1 and (same(t, v, got[0]) or zero) else ("bad", got)
@@ -328,7 +357,7 @@ def main():
             if not in_dom:
                 continue
             for p, r in res.items():
-                if isinstance(r, tuple) and r[0] == "ok":
+                if isinstance(r, tuple) and r[0] in ("ok", "skip"):
                     continue
                 rep = {"type": name, "value": repr(v), "path": p, "result": repr(r)[:300]}
                 what = f"`{name}` value {v!r} written by {p}: " + (f"read back {r[1]!r}" if isinstance(r, tuple) else f"{r}")
@@ -343,6 +372,8 @@ def main():
                     known_or_report("C01-float-decimal-literal", "fltlit", what, rep)
                 elif t[0] == 4 and p == "literal" and re.search(r"\$\w", v or "") and isinstance(r, str) and "Session variable" in r:
                     known_or_report("C01-literal-dollar", "dollar", what, rep)
+                elif p == "qmark" and t[0] in (1, 2) and isinstance(v, int) and v >= 2**64:
+                    known_or_report("C01-qmark-bigint", "qmbig", what, rep)
                 elif p == "pandas" and t[0] == 1 and isinstance(v, int) and abs(v) >= 2**53:
                     known_or_report("C01-pandas-bigint", "pdbig", what, rep)
                 elif p == "pandas" and t[0] == 10 and isinstance(v, str) and v.startswith('"'):
